@@ -16,6 +16,7 @@ from vf import logic as L
 from pony import orm
 from pony.orm import core
 from contracts import c19
+from contracts import c10_blind as BL
 
 META = dict(
     level='proof',
@@ -363,4 +364,7 @@ CONTRACTS = [
                                                 'pony.orm.core:Query._actual_fetch', 'pony.orm.core:Query._aggregate', 'pony.orm.core:Entity.to_dict'],
              _dd_configs, _dd_case, [('same_answer_as_a_new_session_after_commit', _dd_spec)], level='bounded',
              bound='3 entities (1-n and n-n), 15 single modifications + pairs, 6 warm-up states, 32 reads'),
+    Contract('blind_writes_survive_row_loads', ['pony.orm.core:Entity._db_set_', 'pony.orm.core:Entity.set', 'pony.orm.core:Entity._load_', 'pony.orm.core:Attribute.__set__',
+                                               'pony.orm.core:EntityMeta._set_rowdata_' if hasattr(core.EntityMeta, '_set_rowdata_') else 'pony.orm.core:Entity._db_set_'],
+             BL.configs, BL.case, [('reads_in_the_session_and_after_commit_see_the_written_values', BL.spec)], level='bounded', bound=BL.BOUND),
 ]
